@@ -64,7 +64,7 @@ def scripts(rng, tier, n=None):
                 gaps += [seq + d for d in range(1, step)]
                 gaps = gaps[-6:]
                 seq += step
-            mi = rng.randrange(len(p.keys)) if p.use_mki else 0
+            mi = rng.randrange(len(p.keys)) if p.use_mki else rng.choice([0, 0, 1, 3])      # without MKIs the argument is documented as ignored
             L.append(pkt_op("protect", 1, pkt, cap=len(pkt) + p.trailer(), mode=rng.choice([0, 1, 2]), mki_index=mi)); a = len(L)
             umode = rng.choice([0, 1, 2])
             L.append(pkt_op("unprotect", 2, f"@{a:x}", cap=len(pkt) + p.trailer(), mode=umode))
